@@ -27,8 +27,8 @@ def gen(rng, tier):
     n = 14 if tier == "quick" else 250
     cases = []
     for g in range(n):
-        s = G.gen_solvable(rng) if g % 7 != 4 else G.gen_pin_first_joint(rng)
-        if g % 2 == 1 and g % 7 != 4:
+        s = G.gen_pin_first_joint(rng) if g % 7 == 4 else G.gen_slider_joint(rng, ["only_dy", "only_rz", "slide_x"][(g // 7) % 3]) if g % 7 == 5 else G.gen_solvable(rng)
+        if g % 2 == 1 and g % 7 not in (4, 5):
             # a slender member (6 mm round tie rod): its inertia is below 1e-10 when written in metres
             s.secs["rod"] = (Fr("0.2827"), Fr("0.00636"), Fr("0.00636"), Fr("0.0212"), Fr("0.0212"))
             rng.choice(s.bars)["sec"] = "rod"
